@@ -97,7 +97,7 @@ package engine
 
 // (the unfolding is only triggered where the parent link is already mentioned: no matching loop)
 //@ axiom anc_self: forall r flows.Run {anc(r, r)} :: anc(r, r)
-//@ axiom anc_nil: forall x flows.Run {anc(nil, x)} :: anc(nil, x) <==> x == nil
+//@ axiom anc_nil: forall x flows.Run {anc(nil, x)} :: !isnil(x) ==> !anc(nil, x)
 // ---- C01: which runs can still be active. anc(r, x): x is r or one of its ancestors in the session (parent links).
 //@ pure anc(r flows.Run, x flows.Run) bool
 //@   reads runs.run::parent
